@@ -559,7 +559,15 @@ impl Model {
             (_, None) => true,
             (RK::MapWithOld { .. }, Some(o)) => o != new,
             // depend_on installs a cutoff comparing the two nodes' change stamps (until replaced)
-            (RK::DependOn { a, .. }, Some(_)) if !self.nodes[h].cutoff_set => self.nodes[*a].last_changed != self.nodes[h].last_changed,
+            (RK::DependOn { a, .. }, Some(_)) if !self.nodes[h].cutoff_set => {
+                let c = self.nodes[*a].last_changed != self.nodes[h].last_changed;
+                // the engine compares its own change stamps: a relaxed (R2) change of a map_ref input
+                // bumps the input's stamp and so may show as a change here
+                if !c && self.nodes[*a].maybe_changed == Some(round) {
+                    maybe = true;
+                }
+                c
+            }
             (RK::MapRef { src, .. } | RK::MapRefQ { src }, Some(o)) => {
                 let s = &self.nodes[*src];
                 // a node that stayed linked since its last recompute has heard of every change of
